@@ -181,9 +181,18 @@ ParamAlias(p) ==
 
 \* the static verdict: walk main, then the body of the SUB (declarations of main are visible as far
 \* as they are shared / constant)
+\* a parameter is a declaration too: one that carries the name of a FUNCTION with another type is rejected; with the
+\* function's own type it is left open (the code allows FUNCTION Add (Add))
 CheckProg(p) ==
-  LET m == Pass(Start(p), "main", p.main, 1) IN
-  IF m.verdict # "accept" THEN m ELSE Pass([m EXCEPT !.l = ParamScope(p), !.alias = ParamAlias(p)], "sub", p.sub, 1)
+  LET m == Pass(Start(p), "main", p.main, 1)
+      clash(j) == IsFn(m, p.params[j].b)
+      bad == \E j \in 1..Len(p.params) : clash(j) /\ p.params[j].t # m.fn[p.params[j].b].t
+      open == \E j \in 1..Len(p.params) : clash(j)
+  IN
+  IF m.verdict # "accept" THEN m
+  ELSE IF bad THEN Reject(m)
+  ELSE IF open THEN Unspec(m)
+  ELSE Pass([m EXCEPT !.l = ParamScope(p), !.alias = ParamAlias(p)], "sub", p.sub, 1)
 
 \* running: main up to the call, the body (fresh locals), the rest of main
 RECURSIVE CallIndex(_, _)
